@@ -64,10 +64,11 @@ template <> z_interval_t z_interval_t::operator/(const z_interval_t &x) const {
       return ((l / x) | (u / x) | z_interval_t(z_number(0)));
     } else {
       // Neither the dividend nor the divisor contains 0
-      z_interval_t a =
-          (_ub < 0) ? (*this + ((x._ub < 0) ? (x + z_interval_t(z_number(1)))
-                                            : (z_interval_t(z_number(1)) - x)))
-                    : *this;
+      // z_number division truncates and is monotone in each argument as
+      // long as neither interval contains 0: the corners are enough.
+      // (The dividend used to be shifted by 1-x (or x+1) when negative,
+      // which loses quotients: [-2,-2] / [3,4] = [-1,-1] although -2/3 = 0.)
+      const z_interval_t &a = *this;
       bound_t ll = a._lb / x._lb;
       bound_t lu = a._lb / x._ub;
       bound_t ul = a._ub / x._lb;
